@@ -257,6 +257,9 @@ func genFidelity(c *ctx) {
 		case 2, 3: // archive mode (protocol 4, no overwrite) with one-entry directories among the sources
 			fc.cfg.upload, fc.cfg.proto, fc.cfg.overwrite, fc.cfg.directory, fc.cfg.relays, fc.cfg.tunnel = i == 2, 4, false, true, 0, false
 			fc.shape, fc.chunk = 1, 0
+		case 4, 5, 6: // -d -y onto the remains of an earlier attempt, legacy protocols and the current one
+			fc.cfg.upload, fc.cfg.proto, fc.cfg.overwrite, fc.cfg.directory, fc.cfg.relays, fc.cfg.tunnel = i != 5, []int{2, 0, -1}[i-4], true, true, 0, false
+			fc.shape, fc.chunk = 1, 0
 		}
 		fc.desc = fmt.Sprintf("%s shape=%d big=%v rechunk=%d seed=%d", describeCfg(fc.cfg), fc.shape, fc.big, fc.chunk, fc.seed)
 		cases[i] = fc
@@ -284,6 +287,38 @@ func genFidelity(c *ctx) {
 				pre = append(pre, fillBytes(rng, 5000, 0)...) // longer than the source's prefix
 			}
 			os.WriteFile(filepath.Join(dest, "resume.bin"), pre, 0644)
+		}
+		if fc.cfg.overwrite && fc.shape == 1 {
+			// -d -y onto what an earlier attempt left behind: some files of the tree already exist at
+			// the destination, longer than / a prefix of / different from the source (every protocol:
+			// the legacy ones truncate when they open, protocol >= 3 goes through the resume exchange)
+			for _, top := range fc.tops {
+				filepath.Walk(top, func(p string, info os.FileInfo, err error) error {
+					if err != nil || !info.Mode().IsRegular() || rng.Intn(2) == 0 {
+						return nil
+					}
+					rel, _ := filepath.Rel(filepath.Dir(top), p)
+					content, _ := os.ReadFile(p)
+					var pre []byte
+					switch rng.Intn(4) {
+					case 0: // longer, same beginning
+						pre = append(append([]byte(nil), content...), fillBytes(rng, 1+rng.Intn(3000), 0)...)
+					case 1: // a prefix
+						pre = append([]byte(nil), content[:len(content)/2]...)
+					case 2: // longer and different from the first byte on
+						pre = fillBytes(rng, len(content)+1+rng.Intn(3000), 1)
+					default: // same length, one byte differs
+						pre = append([]byte(nil), content...)
+						if len(pre) > 0 {
+							pre[len(pre)/2] ^= 0x20
+						}
+					}
+					q := filepath.Join(dest, rel)
+					os.MkdirAll(filepath.Dir(q), 0755)
+					os.WriteFile(q, pre, 0644)
+					return nil
+				})
+			}
 		}
 		if fc.chunk > 0 {
 			var mu sync.Mutex
